@@ -8,6 +8,9 @@ must equal the schedule computed from the statement; exactly one header, first; 
 every way of splitting n steps into consecutive run / srun / irun calls (zero-length
 pieces included) the final state digest, step counter, observer logs and file contents
 must equal those of a single run(n).
+Splits are also executed with all generator objects prepared before the first is consumed, with one observer detached
+and another attached between two pieces, and a simulation rebuilt from its dictionary is continued through each entry
+point and must perform exactly the requested steps.
 """
 from __future__ import annotations
 
